@@ -4,6 +4,7 @@ package main
 
 var verifHarnesses = map[string]func(){
 	"VerifC17Mcrew":      VerifC17Mcrew,
+	"VerifC17McrewTime":  VerifC17McrewTime,
 	"VerifC16Faults":     VerifC16Faults,
 	"VerifC16Partial":    VerifC16Partial,
 	"VerifC16Routing":    VerifC16Routing,
